@@ -116,6 +116,7 @@ pub fn main(args: &[String]) -> i32 {
     std::fs::create_dir_all(&dir).ok();
     obs::set_cpus(cpus);
     crate::util::watchdog::start(o.num("watchdog", 40));
+    obs::set_hang_lockout(o.get("lockout"));
     let mut rng = StdRng::seed_from_u64(seed);
     let mut path = format!("{dir}/dev.feox");
     let _ = std::fs::remove_file(&path);
